@@ -528,7 +528,7 @@ def run_case(case):
 # ---------------------------------------------------------------- units
 
 def plan(tier, seed, scale=1.0):
-    n = int((4800 if tier == 'quick' else 90000) * scale)
+    n = int((4800 if tier == 'quick' else 220000) * scale)
     nchain = int((0 if tier == 'quick' else 16104) * scale)     # 11 + 11^2 + 11^3 + 11^4
     nchain_quick = int(400 * scale) if tier == 'quick' else 0
     per = 40 if tier == 'quick' else 400
